@@ -1253,3 +1253,42 @@ func HarnessC09TwoOperations() {
 	verifAssert((len(gotE.warns) > 0) == (bad1 || bad2), "rejected-example-is-a-warning-and-only-then")
 	verifReach("end")
 }
+
+// HarnessC03SharedParameters: parameters declared by the path item (shared by its operations): they
+// must be unique by name + location among themselves; an operation-level parameter with the same
+// name + location overrides the shared one (no error).
+func HarnessC03SharedParameters() {
+	mk := func() spec.Parameter {
+		name := []string{"x", "y"}[verifChoose(2)]
+		if verifBool() {
+			return *spec.QueryParam(name).Typed("string", "")
+		}
+		return *spec.HeaderParam(name).Typed("integer", "")
+	}
+	pi := spec.PathItem{}
+	n := verifChoose(4)
+	for i := 0; i < n; i++ {
+		pi.Parameters = append(pi.Parameters, mk())
+	}
+	op := &spec.Operation{}
+	op.ID = "op"
+	if verifBool() {
+		op.Parameters = []spec.Parameter{mk()} // may override a shared one
+	}
+	dup := false
+	for i := range pi.Parameters {
+		for j := 0; j < i; j++ {
+			if pi.Parameters[i].Name == pi.Parameters[j].Name && pi.Parameters[i].In == pi.Parameters[j].In {
+				dup = true
+			}
+		}
+	}
+	sw := &spec.Swagger{}
+	sw.Paths = &spec.Paths{Paths: map[string]spec.PathItem{"/p": pi}}
+	ops := map[string]map[string]*spec.Operation{"GET": {"/p": op}}
+	s := newSpecHarnessValidator(sw, ops, verifBool(), true)
+	got := outcomeOfResult(s.validateParameters())
+	verifObserve("valid", got.valid)
+	verifAssert(got.valid == !dup, "shared-parameters-unique-by-name-and-location")
+	verifReach("end")
+}
